@@ -10,6 +10,7 @@ blanks and non-ASCII white space up to the length bound is inside the space.
 """
 import importlib.util
 import itertools
+import math
 import sys
 import types
 import z3
@@ -39,7 +40,8 @@ META = {
         'the code distinguishes characters only by: being U+0020, being white space for str.split(), membership in the engine charset, being Arabic / an Arabic or Latin delimiter '
         '(one representative per class stands for the class)',
         'align_text returns strictly increasing frame positions or raises ValueError (C05); get_line_confidence returns values in [0,1] (C16); '
-        'EngineLineCropper.get_crop_inputs returns a 16 x W x 2 grid of finite reals (its geometry is C10): all three are stubs with symbolic results',
+        'EngineLineCropper.get_crop_inputs returns a 16 x W x 2 grid of finite reals (its geometry is C10): all three are stubs with symbolic results; '
+        'the glc=real tasks run the real get_line_confidence on uniform posteriors instead of its stub',
         'lxml: stub as in C01 (escaping of CONTENT is outside)',
     ],
     'outside': ['word box positions (only integrality is claimed)', 'get_quality', 'lxml escaping', 'real crop geometry', 'strings longer than the bound'],
@@ -48,6 +50,8 @@ META = {
 
 ALPHA_A = [' ', '\t', 'a', 'ž', 'ب']          # space, other white space, in charset, outside charset, Arabic letter
 CHARSET = ['a', 'b', 'ب', '<blank>']
+ALPHA_P = [' ', 'a', '.', 'ب']                 # tasks with a preceding Arabic line: blank, Latin letter, Latin delimiter, Arabic letter
+CHARSET_P = ['a', '.', 'ب', '<blank>']
 ALPHA_B = ['ب', 'ت', '،', 'a', '1', ' ', '.']   # two Arabic letters, Arabic delimiter, Latin letter, digit, blank, Latin delimiter
 
 
@@ -63,6 +67,12 @@ def tasks(tier):
             if n >= 3:
                 t['split'] = 32
             ts.append(t)
+    # an Arabic line precedes the line in the same block (script handling is per line)
+    for n in range(1, nmax + 1):
+        ts.append({'mode': 'alto', 'n': n, 'logits': 'align', 'F': (n + 1 if tier == 'quick' else 5), 'grid': 1, 'pre': True})
+    # composition with the real get_line_confidence (uniform posteriors) instead of its contract stub
+    for n in range(1, nmax + 1):
+        ts.append({'mode': 'alto', 'n': n, 'logits': 'align', 'F': (n + 1 if tier == 'quick' else 5), 'grid': 1, 'glc': 'real'})
     if tier != 'quick':
         for logits in ('unalignable', 'absent'):
             ts.append({'mode': 'alto', 'n': 5, 'logits': logits, 'F': 5, 'grid': 1, 'split': 64})
@@ -165,9 +175,12 @@ def _run_alto(H, L, task):
     grid_w = z3.Int('crop_columns')
     state = {}
     L.__dict__['round'] = _round_shim()
+    npre = 1 if task.get('pre') else 0
+    real_glc = L.get_line_confidence
+    ALPHA, CHARSET = (ALPHA_P, CHARSET_P) if npre else (ALPHA_A, globals()['CHARSET'])
 
     def case(m_, **kw):
-        c = {'mode': 'alto', 'n': n, 'logits': lmode, 'text': state.get('text'), 'positions': [mv(m_, S(p)) for p in pos], 'conf': [mv(m_, S(c_)) for c_ in conf],
+        c = {'mode': 'alto', 'n': n, 'pre': npre, 'glc': task.get('glc'), 'logits': lmode, 'text': state.get('text'), 'positions': [mv(m_, S(p)) for p in pos], 'conf': [mv(m_, S(c_)) for c_ in conf],
              'min_conf': mv(m_, S(minconf)), 'geo': {k: mv(m_, S(v)) for k, v in geo.items()}, 'heights': [mv(m_, S(h)) for h in hs],
              'crop_columns': mv(m_, S(grid_w)), 'align_fails': state.get('align_fails'), 'F': F}
         c.update(kw)
@@ -178,8 +191,8 @@ def _run_alto(H, L, task):
         state.clear()
         text = ''
         for v in cls:
-            core.assume(z3.And(v >= 0, v < len(ALPHA_A)))
-            text += ALPHA_A[core.concretize(v)]
+            core.assume(z3.And(v >= 0, v < len(ALPHA)))
+            text += ALPHA[core.concretize(v)]
         state['text'] = text
         g = geo
         core.assume(z3.And(g['page_h'] > 0, g['page_w'] > 0, g['rx0'] <= g['rx1'], g['ry0'] <= g['ry1'], g['lx0'] <= g['lx1'], g['ly0'] <= g['ly1'],
@@ -199,6 +212,9 @@ def _run_alto(H, L, task):
             line.characters = list(CHARSET)        # a line recognised in no-logits mode: characters set, logits absent
         line.get_dense_logits = lambda: symnp.zeros((F, len(CHARSET)))
         line.get_full_logprobs = lambda: symnp.zeros((F, len(CHARSET)))
+        if npre:
+            core.assume(minconf == 0)
+            reg.lines.append(L.TextLine(id='l0', baseline=line.baseline, polygon=line.polygon, heights=[S(hs[0]), S(hs[1])], transcription='ب'))
         reg.lines.append(line)
         pl.regions.append(reg)
 
@@ -217,6 +233,10 @@ def _run_alto(H, L, task):
             return symnp.A(ps, (len(ps),), symnp.int32)
         L.align_text = align_text
         L.get_line_confidence = lambda line_, labels, aligned, logprobs: symnp.A([S(conf[i]) for i in range(len(labels))], (len(labels),))
+        if task.get('glc') == 'real':
+            L.get_line_confidence = real_glc
+            uni = math.log(1.0 / len(CHARSET))
+            line.get_full_logprobs = lambda: symnp.A([uni] * (F * len(CHARSET)), (F, len(CHARSET)))
 
         class Cropper:
             def __init__(self, **kw):
@@ -242,9 +262,15 @@ def _run_alto(H, L, task):
         pl, s, L2 = res
         root = s.tree
         tls = _strings(root, 'TextLine')
+        if npre:
+            if not tls or [el.attrib.get('CONTENT') for el in _strings(tls[0], 'String')] != ['ب']:
+                H.fail(K + 'preceding-line', 'the preceding Arabic line (no logits, minimum confidence 0) is not exported with its word',
+                       lambda m_: case(m_))
+                continue
+            tls = tls[1:]
         words = text.split()
         nonblank = bool(text) and text.strip() != ''
-        line = pl.regions[0].lines[0]
+        line = pl.regions[0].lines[-1]
         lc = line.transcription_confidence
         got = lambda m_: {'strings': [[el.attrib.get('CONTENT') for el in _strings(tl, 'String')] for tl in tls]}
         if not nonblank:
@@ -298,7 +324,7 @@ def _run_alto(H, L, task):
         if wcs:
             H.claim(z3.And(*[z3.And(w >= 0, w <= 1) for w in wcs]), K + 'wc-range', 'a word confidence lies outside [0, 1]', lambda m_: case(m_))
         # (7) re-importing the file returns the same words
-        l2 = [ln for r in L2.regions for ln in r.lines]
+        l2 = [ln for r in L2.regions for ln in r.lines][npre:]
         if len(l2) != 1 or l2[0].transcription != ' '.join(exp_words):
             H.fail(K + 'reimport', 're-importing the ALTO file gives %r instead of %r' % ([ln.transcription for ln in l2], ' '.join(exp_words)), lambda m_: case(m_))
         H.witness(lambda m_: case(m_, expect=contents))
